@@ -107,7 +107,7 @@ theorem manager_creation (C : Crypto) (cx : ICtx) (tokenId : Bytes) (ty : Nat) (
     t.w.kind addr = none ∧ t'.w.kind addr = some .tokenManager ∧
     ∃ operator tmst evs, (opRaw = [] ∧ operator = none ∨ opRaw.length = 32 ∧ operator = some opRaw) ∧
       TokenManager.init cx.self ty tokenId operator token = .ok (tmst, evs) ∧ t'.w.tms addr = tmst := by
-  obtain ⟨h1, h2, h3, h4, h5, h6⟩ := deployTokenManagerRaw_spec C cx tokenId ty token opRaw t t' addr h
+  obtain ⟨h1, h2, h3, _, h4, h5, h6⟩ := deployTokenManagerRaw_spec C cx tokenId ty token opRaw t t' addr h
   refine ⟨h1, h2, by rw [h3]; simp [upd], fun id hid => by rw [h3]; simp [upd, hid], h4, h5, h6⟩
 
 /-- the manager's own record of (service, type, id, token) is what `init` was given -/
